@@ -34,7 +34,8 @@ def run(tier, rep, work):
     if "EVENTS %d" % v["events"] not in p.stdout:
         raise C.Inconclusive("event count mismatch between driver and trace")
     rep.trace_run("bm25", v, histories_nontrivial=C.distinct_nontrivial(trace, {"add", "remove", "flush", "reload", "save"}, {"search"}))
-    rep.cov["exhaustive"] = True
+    rep.cov["exhaustive"] = False
+    rep.cov["exhaustive_scope"] = "model space enumerated completely by TLC; a seed-offset stride of the generated histories is replayed on the real index; random corpora are samples"
     rep.cov["rule"] = ("(A) TLC explores every history of Add (fresh, replace, re-add after remove) / Remove / Flush / Reload up to 4 operations over a 3-token vocabulary and checks the "
                        "statistics clauses as invariants; (B) 1 in %d of those %d histories (offset by seed) is replayed on a real BM25SearchIndex with a battery of searches "
                        "(single and multi-query, k in {-1,1,2}, id restriction, three aggregations); (C) %d seeded random histories over 7 ids with texts drawn from 21 pieces "
